@@ -76,6 +76,16 @@ CHECKS = {
          "spec/Cosmetic.tla defines which element-hiding rules apply to a hostname (listed domains and their sub-domains, wildcard TLD through PSL answers, excluded domains), which are cancelled by an applicable exception with the same selector, and how the CSS / generic-CSS flags filter and file the selectors. TLC enumerates every set of up to 3 (quick) / 5 (thorough) rules of a 16-rule pool on 7 hostnames and checks FlagsOK and SubdomainsCovered; each set is loaded in seeded order/splits into the real engines and all 8 flag combinations are compared as selector sets.",
          "Trusted: TLC, the renderer (cross-checked against NewCosmeticRule's fields); the model's PSL is checked against the real list on every host.",
          "6/C15"),
+ "C11": ("model_checking",
+         "TLC enumeration of storages (lists x line types x 4 KiB boundary lengths) with the TLA+ scan/index/retrieval meaning (RoundTrip, Injective theorems); replay on in-memory and file-backed lists",
+         "spec/Storage.tla abstracts a line to what determines byte offsets and meaning (kind, body length, padding, end-of-line), defines the scan sequence with (list id, byte offset) indexes and retrieval by index, and TLC proves RoundTrip, Injective and DistinctIds on every enumerated storage; line bodies of 4095/4096/4097/9000 bytes put the newline before, on and after the read-buffer boundaries. Each storage is rendered to real bytes (the reference parse of every line is the real NewRule), built as StringRuleList AND as FileRuleList on real temp files with ids MinInt32/MaxInt32/0, scanned, every yielded index decoded and retrieved cold and warm, and engines on both stores compared.",
+         "Trusted: TLC, the byte renderer (self-checked: rendered sizes must equal the model's, every line must parse to the stated kind). Index pairs are projected from the int64 by the documented layout (id in the high, offset in the low 32 bits).",
+         "6/C11"),
+ "C12": ("model_checking",
+         "TLC trace validation of parse / match / engine events from a seeded mutation driver against the parse trichotomy (no crash outcome); TLC-enumerated storages replayed with noise lines removed and line endings switched",
+         "spec/Lines.tla allows exactly three outcomes of parsing a line (nothing / rule with text = trimmed line and the given list id / error); a panic anywhere is an outcome the specification does not have. A seeded driver parses grammar lines, real-list lines and byte mutations of both, matches every parsed network rule against a request universe and loads batches into Engine and DNSEngine which are then queried; TLC validates every event (Trace_Lines). Storage!NoiseInert states that comment, blank and rejected lines do not change what a scan delivers; every MC_Storage storage is replayed against its denoised and its other-line-ending variant, comparing scans and engine answers.",
+         "Trusted: TLC; strings.TrimSpace is logged as environment input. Breadth of crash hunting comes from the drivers, not from the model.",
+         "6/C12"),
 }
 
 NOT_YET = "check not built yet in this session (see DESIGN.md section 6 for the planned TLA+ decision procedure)"
